@@ -276,6 +276,19 @@ class LineProc:
                     res.append(out1[len(pre1)])
                     start = k + 1
                     continue
+            else:
+                # a death caused by the environment (the machine out of memory for a moment: `memory allocation of
+                # N bytes failed`, a kill by the OOM killer) is not a crash of delta: a genuine crash is deterministic,
+                # so ask for that one request alone once more before concluding
+                k = start + len(out)
+                if k < len(lines) and ("memory allocation of" in err or rc in (-9, 137)):
+                    pre1 = [lines[i] for i in sticky if i < k][-1:]
+                    out1, rc1, err1 = self._run(pre1 + [lines[k]], timeout)
+                    if rc1 != "timeout" and len(out1) > len(pre1):
+                        res.append(out1[len(pre1)])
+                        self.env_retries = getattr(self, "env_retries", 0) + 1
+                        start = k + 1
+                        continue
             res.append("DIED %s %s" % (rc, hx(err[-400:])))
             self.restarts += 1
             start += len(out) + 1
